@@ -125,3 +125,73 @@ def gen_stats(repo):
             f"/-- categorical branch of `write_column` (line {branch.lineno}) orders labels by category position -/\n"
             f"def catUsesCategoryOrder : Bool := {'true' if uses_cat_order else 'false'}\n"
             "end PqV.Gen.Stats\n")
+
+
+def thrift_calls(tree):
+    """(struct name, [keyword names], marker) for every construction of a Thrift structure"""
+    out = []
+    for node in ast.walk(tree):
+        if not isinstance(node, ast.Call):
+            continue
+        f = node.func
+        name = None
+        if isinstance(f, ast.Attribute) and isinstance(f.value, ast.Name) and f.value.id == "parquet_thrift" and f.attr[:1].isupper():
+            name = f.attr
+        elif isinstance(f, ast.Attribute) and f.attr == "from_fields" and node.args and isinstance(node.args[0], ast.Constant):
+            name = node.args[0].value
+        if name is None:
+            continue
+        kws, marker, i32list = [], "none", []
+        ok = True
+        for kw in node.keywords:
+            if kw.arg is None:
+                ok = False
+                continue
+            if kw.arg == "i32":
+                v = kw.value
+                truthy = isinstance(v, ast.Constant) and bool(v.value)
+                marker = "all" if truthy else marker
+            elif kw.arg == "i32list":
+                if isinstance(kw.value, ast.List) and all(isinstance(e, ast.Constant) for e in kw.value.elts):
+                    marker = "list"
+                    i32list = [e.value for e in kw.value.elts]
+                else:
+                    ok = False
+            elif kw.arg == "thrift_name":
+                continue
+            else:
+                # a keyword whose value is the literal None does not put the field on the wire
+                if isinstance(kw.value, ast.Constant) and kw.value.value is None:
+                    continue
+                kws.append(kw.arg)
+        out.append((name, kws, marker, i32list, node.lineno, ok))
+    return out
+
+
+@register("CallSites")
+def gen_callsites(repo):
+    rows = []
+    for fn in ("writer.py", "util.py", "api.py"):
+        src = open(os.path.join(repo, "fastparquet", fn)).read()
+        for (name, kws, marker, i32list, line, ok) in thrift_calls(ast.parse(src)):
+            if not ok:
+                raise Unsupported(f"{fn}:{line}: Thrift construction with **kwargs or a non-literal i32list")
+            rows.append((fn, line, name, kws, marker, i32list))
+    if not rows:
+        raise Unsupported("no Thrift construction sites found")
+    out = ["-- REGENERATED on every run by tools/translate_callsites.py from fastparquet/{writer,util,api}.py — do not edit",
+           "namespace PqV.Gen.CallSites",
+           "structure Site where",
+           "  file : String",
+           "  line : Nat",
+           "  struct : String",
+           "  fields : List String",
+           "  marker : String          -- \"none\" | \"all\" (i32=True) | \"list\" (i32list=[...])",
+           "  i32list : List Nat",
+           "  deriving Repr",
+           "def sites : List Site := ["]
+    out.append(",\n".join('  ⟨"%s", %d, "%s", [%s], "%s", [%s]⟩' % (fn, line, name, ", ".join(f'"{k}"' for k in kws), marker,
+                                                               ", ".join(map(str, i32list))) for fn, line, name, kws, marker, i32list in rows))
+    out.append("]")
+    out.append("end PqV.Gen.CallSites")
+    return "\n".join(out) + "\n"
